@@ -209,6 +209,26 @@ def _run_main(res, ctx):
                 cname, tmpl, off = rng.choice(CONTEXTS)
                 src = tmpl.format(pre=pre, call=callee + "(a)")
                 cases.append((src, ("miss", pre.count("\n") + 1), dict(kind="call-nearmiss", rule=r["id"], q=q, spelling=label, context=cname)))
+    # ---- depth: a blacklisted call far down a valid expression / statement nest is visited like any other (seeded change C01-m11 stopped descending at a quarter of
+    #      the recursion limit: a call 250-900 levels deep was silently never visited, the file still listed as scanned).  Depths stay below what makes the
+    #      unchanged visitor itself give up (about 900 levels: then the file is skipped, C04's business).
+    deep_rules = [r for r in call_rules if r["id"] not in import_ids and any("." in q for q in r["qualnames"])]
+    for r in (deep_rules if thorough else rng.sample(deep_rules, 3)):
+        q = next(q for q in r["qualnames"] if "." in q)
+        mod = q.rsplit(".", 1)[0]
+        first = qual_owner(q, call_rules)[0]
+        for depth in ((60, 300, 420) if not thorough else (60, 150, 260, 300, 420, 600)):
+            shapes = [("binop-chain", f"import {mod}\nv = {q}(d)" + " + 1" * depth + "\n", 2),
+                      ("binop-chain-multiline", f"import {mod}\nv = ({q}(d)\n" + "     + 1\n" * depth + ")\n", 2),
+                      ("call-chain", f"import {mod}\nv = {q}(d)" + ".a()" * (depth // 2) + "\n", 2),
+                      ("elif-ladder", f"import {mod}\nif c0:\n    pass\n" + "".join(f"elif c{i}:\n    pass\n" for i in range(1, depth)) + f"else:\n    v = {q}(d)\n", 2 * depth + 3),
+                      ("nested-list", f"import {mod}\nv = " + "[" * (depth // 2) + f"{q}(d)" + "]" * (depth // 2) + "\n", 2)]
+            for label, src, line in (shapes if thorough else rng.sample(shapes, 3)):
+                try:
+                    compile(src, "deep", "exec", flags=0x400, dont_inherit=True)     # PyCF_ONLY_AST: the parser's own nesting limits decide validity
+                except (SyntaxError, RecursionError, MemoryError):
+                    continue
+                cases.append((src, ("hit", first["id"], first.get("level", "MEDIUM"), line), dict(kind="call", rule=r["id"], q=q, spelling="import_m+deep", context=f"deep:{label}:{depth}")))
     # ---- imports
     all_import_q = [(r, q) for r in import_rules for q in r["qualnames"]]
     for r, q in all_import_q:
@@ -327,4 +347,4 @@ def json_safe(x):
 def run(res, ctx):
     _run_main(res, ctx)
     # the neighbourhood of every construct of bandit's example files (harness/metamorph.py): model vs implementation on this family's ids
-    metamorph.family(res, ctx, C, C.blacklist_ids(), 700, 4000)
+    metamorph.family(res, ctx, C, C.blacklist_ids(), 700, 4000, sections="none")
